@@ -656,8 +656,9 @@ func c01(c *Ctx) {
 		writeBackAll(c, r, func(fn *ssa.Function) bool {
 			return strings.Contains(fn.Name(), "receive") || strings.Contains(fn.Name(), "Merge") || strings.Contains(FuncName(fn), "MetricAggregator")
 		})
-		rc := w.Func("", "(*MetricMap).receiveCounter")
-		rt := w.Func("", "(*MetricMap).receiveTimer")
+		// (a receive helper written into its arm of Receive's switch is looked for there)
+		rc, _ := w.FuncOrHost("", "(*MetricMap).receiveCounter")
+		rt, _ := w.FuncOrHost("", "(*MetricMap).receiveTimer")
 		rv := w.Func("", "(*MetricMap).Receive")
 		if rc == nil || rt == nil || rv == nil {
 			r.Unresolved("(*MetricMap).receiveCounter/receiveTimer/Receive")
@@ -721,6 +722,33 @@ func c01(c *Ctx) {
 							if f := staticCallee(call); f != nil && strings.HasPrefix(f.Name(), "receive") {
 								got = f.Name()
 							}
+						}
+					}
+					if got == "" {
+						// the receiver is written in place: the arm (and nothing else) stores into the collection of its type
+						field := map[string]string{"COUNTER": "Counters", "GAUGE": "Gauges", "TIMER": "Timers", "SET": "Sets"}[cn]
+						okArm, other := false, false
+						for _, b2 := range rv.Blocks {
+							if b2 != blk && !blk.Dominates(b2) {
+								continue
+							}
+							for _, in := range b2.Instrs {
+								if mu, ok := in.(*ssa.MapUpdate); ok {
+									p := mapHome(mu.Map) + " " + pathOf(mu.Map)
+									for _, f := range []string{"Counters", "Gauges", "Timers", "Sets"} {
+										if strings.Contains(p, "."+f) {
+											if f == field {
+												okArm = true
+											} else {
+												other = true
+											}
+										}
+									}
+								}
+							}
+						}
+						if okArm && !other {
+							got = fnn
 						}
 					}
 				}
